@@ -436,15 +436,13 @@ func c09r5(p *Program, r *Report) {
 		r.Check(ok, fi.Decl, "murmur3Partitioner.Hash hashes the whole key with Murmur3H1", "Murmur3H1(partitionKey)", "the Murmur3 partitioner does not hash the partition key with Murmur3H1")
 	}
 	if fi := r.NeedFunc("(murmur3Token).Less"); fi != nil {
-		s := exprStr(fi.Decl.Body.List[0].(*ast.ReturnStmt).Results[0])
-		r.Check(s == "m < token.(murmur3Token)", fi.Decl, "murmur3Token orders as signed 64-bit numbers", s, "Murmur3 tokens are not ordered by signed numeric comparison: "+s)
+		c09Less(p, r, fi, "murmur3Token orders as signed 64-bit numbers", "int", "Murmur3 tokens are not ordered by a signed numeric comparison")
 	}
 	if fi := r.NeedFunc("(orderedPartitioner).Hash"); fi != nil {
 		s := exprStr(fi.Decl.Body.List[0].(*ast.ReturnStmt).Results[0])
 		r.Check(s == "orderedToken(partitionKey)", fi.Decl, "orderedPartitioner uses the key bytes as the token", s, "the order-preserving partitioner does not use the key bytes themselves")
 	}
 	if fi := r.NeedFunc("(orderedToken).Less"); fi != nil {
-		s := exprStr(fi.Decl.Body.List[0].(*ast.ReturnStmt).Results[0])
 		nt := p.NamedType("orderedToken")
 		isStr := false
 		if nt != nil {
@@ -452,7 +450,8 @@ func c09r5(p *Program, r *Report) {
 				isStr = true
 			}
 		}
-		r.Check(isStr && s == "o < token.(orderedToken)", fi.Decl, "orderedToken orders by unsigned byte-wise comparison", s+" on a string type", "ordered tokens are not compared as Go strings (unsigned bytes, lexicographic): "+s)
+		r.Check(isStr, fi.Decl, "orderedToken is a string type (unsigned byte order)", "string", "orderedToken is not a string: Go would not compare it as unsigned bytes")
+		c09Less(p, r, fi, "orderedToken orders by unsigned byte-wise comparison", "string", "ordered tokens are not compared as Go strings / bytes (unsigned, lexicographic)")
 	}
 	if fi := r.NeedFunc("(randomPartitioner).Hash"); fi != nil {
 		info := fi.Pkg.TypesInfo
@@ -497,8 +496,7 @@ func c09r5(p *Program, r *Report) {
 		r.Check(ok, fi.Decl, "maxHashInt is 2^128", "340282366920938463463374607431768211456", "maxHashInt is not 2^128")
 	}
 	if fi := r.NeedFunc("(*randomToken).Less"); fi != nil {
-		s := exprStr(fi.Decl.Body.List[0].(*ast.ReturnStmt).Results[0])
-		r.Check(s == "-1 == (*big.Int)(r).Cmp((*big.Int)(token.(*randomToken)))", fi.Decl, "randomToken orders numerically", s, "random tokens are not ordered by big-integer comparison: "+s)
+		c09Less(p, r, fi, "randomToken orders numerically", "big", "random tokens are not ordered by big-integer comparison")
 	}
 	for name, want := range map[string]string{
 		"(murmur3Partitioner).ParseString": "strconv.ParseInt(str, 10, 64)",
@@ -686,4 +684,147 @@ func c09r6(p *Program, r *Report) {
 		}
 	}
 	r.Check(okMissing, md, "routingKeyInfo (metadata): a partition-key column without a bound value yields no routing key", "return nil, nil", "a partition-key column that is not bound does not abandon routing-key construction (a partial key would hash to a wrong token)")
+}
+
+// c09Less decides how a token type's Less orders two tokens. kind: "int" (signed <), "string" (< on strings,
+// strings.Compare, bytes.Compare), "big" ((*big.Int).Cmp). A three-way helper (x.cmp(y) < 0) is followed one
+// level; an ordering derived from a difference of the two values is a violation (the difference of two int64
+// overflows); a shape that is none of these is reported as unresolved, not as a violation.
+func c09Less(p *Program, r *Report, fi *FuncInfo, construct, kind, badWhy string) {
+	info := fi.Pkg.TypesInfo
+	if len(fi.Decl.Body.List) != 1 {
+		r.Unresolved("%s: body is not a single return", fi.Name)
+		return
+	}
+	rs, ok := fi.Decl.Body.List[0].(*ast.ReturnStmt)
+	if !ok || len(rs.Results) != 1 {
+		r.Unresolved("%s: body is not a single return", fi.Name)
+		return
+	}
+	verdict, why := orderingOf(p, info, fi, rs.Results[0], kind, 0)
+	switch verdict {
+	case "ok":
+		r.OK(fi.Decl, construct, why)
+	case "bad":
+		r.Bad(fi.Decl, construct, badWhy+": "+why)
+	default:
+		r.Unresolved("%s: ordering expression %s not understood (%s)", fi.Name, exprStr(rs.Results[0]), why)
+	}
+}
+
+func orderingOf(p *Program, info *types.Info, fi *FuncInfo, e ast.Expr, kind string, depth int) (string, string) {
+	e = ast.Unparen(e)
+	be, ok := e.(*ast.BinaryExpr)
+	if !ok {
+		return "?", "not a comparison"
+	}
+	isCmpCall := func(x ast.Expr) *ast.CallExpr {
+		c, ok := ast.Unparen(x).(*ast.CallExpr)
+		if !ok {
+			return nil
+		}
+		return c
+	}
+	// three-way result compared with a constant: Cmp(a,b) < 0, -1 == Cmp(a,b), Cmp(a,b) == -1
+	for _, pr := range [][2]ast.Expr{{be.X, be.Y}, {be.Y, be.X}} {
+		c := isCmpCall(pr[0])
+		k, isK := constInt(info, pr[1])
+		if c == nil || !isK {
+			continue
+		}
+		lessForm := be.Op == token.LSS && pr[0] == be.X && k == 0 || be.Op == token.GTR && pr[0] == be.Y && k == 0 || be.Op == token.EQL && k == -1 || be.Op == token.LEQ && pr[0] == be.X && k == -1
+		if !lessForm {
+			return "bad", "the three-way result is not tested for 'less' (" + exprStr(e) + ")"
+		}
+		name := calleeName(info, c)
+		switch {
+		case name == "big.(*Int).Cmp" && kind == "big", name == "strings.Compare" && kind == "string", name == "bytes.Compare" && kind == "string":
+			return "ok", exprStr(e)
+		}
+		// a helper of the repository: follow it
+		if fn := calleeOf(info, c); fn != nil && depth < 2 {
+			if callee := p.FuncOf(fn); callee != nil && callee.Decl.Body != nil {
+				return threeWayOf(p, callee, kind)
+			}
+		}
+		return "?", "three-way helper " + name + " not understood"
+	}
+	// direct comparison
+	if be.Op == token.LSS || be.Op == token.GTR {
+		tx, ty := info.TypeOf(be.X), info.TypeOf(be.Y)
+		if tx == nil || ty == nil {
+			return "?", "untyped operands"
+		}
+		bx, okx := tx.Underlying().(*types.Basic)
+		by, oky := ty.Underlying().(*types.Basic)
+		if !okx || !oky {
+			return "?", "operands are not basic values"
+		}
+		// receiver must be on the smaller side
+		recv := ""
+		if fi.Decl.Recv != nil && len(fi.Decl.Recv.List) == 1 && len(fi.Decl.Recv.List[0].Names) == 1 {
+			recv = fi.Decl.Recv.List[0].Names[0].Name
+		}
+		small := be.X
+		if be.Op == token.GTR {
+			small = be.Y
+		}
+		if recv != "" && !strings.Contains(exprStr(small), recv) {
+			return "bad", "Less(a, b) is computed as b < a (" + exprStr(e) + ")"
+		}
+		switch kind {
+		case "int":
+			if bx.Info()&types.IsInteger != 0 && bx.Info()&types.IsUnsigned == 0 && by.Info()&types.IsInteger != 0 {
+				return "ok", exprStr(e) + " on " + tx.String()
+			}
+			return "bad", "compared as " + bx.String() + ", not as signed integers"
+		case "string":
+			if bx.Info()&types.IsString != 0 && by.Info()&types.IsString != 0 {
+				return "ok", exprStr(e) + " on strings"
+			}
+			return "bad", "compared as " + bx.String() + ", not as strings"
+		}
+	}
+	return "?", "shape " + exprStr(e)
+}
+
+// threeWayOf: does helper fi compute sign(a - b) by comparisons (ok) or from a difference (bad)?
+func threeWayOf(p *Program, fi *FuncInfo, kind string) (string, string) {
+	info := fi.Pkg.TypesInfo
+	verdict, why := "?", "helper "+fi.Name+" has no recognised comparison"
+	sub := false
+	ast.Inspect(fi.Decl.Body, func(x ast.Node) bool {
+		switch n := x.(type) {
+		case *ast.BinaryExpr:
+			if n.Op == token.SUB {
+				if t := info.TypeOf(n); t != nil {
+					if b, ok := t.Underlying().(*types.Basic); ok && b.Info()&types.IsInteger != 0 {
+						if _, isConst := constInt(info, n); !isConst {
+							sub = true
+						}
+					}
+				}
+			}
+			if (n.Op == token.LSS || n.Op == token.GTR) && verdict == "?" {
+				tx := info.TypeOf(n.X)
+				if tx != nil {
+					if b, ok := tx.Underlying().(*types.Basic); ok {
+						if kind == "int" && b.Info()&types.IsInteger != 0 && b.Info()&types.IsUnsigned == 0 || kind == "string" && b.Info()&types.IsString != 0 {
+							verdict, why = "ok", "helper "+fi.Name+" compares with "+n.Op.String()
+						}
+					}
+				}
+			}
+		case *ast.CallExpr:
+			name := calleeName(info, n)
+			if name == "big.(*Int).Cmp" && kind == "big" || (name == "strings.Compare" || name == "bytes.Compare") && kind == "string" {
+				verdict, why = "ok", "helper "+fi.Name+" delegates to "+name
+			}
+		}
+		return true
+	})
+	if sub {
+		return "bad", "helper " + fi.Name + " derives the order from a difference of the two values, which overflows for tokens more than 2^63 apart"
+	}
+	return verdict, why
 }
